@@ -144,7 +144,7 @@ func GenReader(t *rapid.T, backend sim.Backend, keys []string, id, client int, w
 	key := func(name string) string { return rapid.SampledFrom(keys).Draw(t, name) }
 	kinds := []string{"get", "batchget", "iter", "batchget"}
 	if writes {
-		kinds = append(kinds, "write", "lockwrite")
+		kinds = append(kinds, "write", "lockwrite", "write", "lockwrite") // writers are the ones that must clear leftover locks
 	}
 	if backend == sim.Mock {
 		kinds = append(kinds, "iterrev")
